@@ -20,7 +20,7 @@ class Edge:
         s.phony = False; s.restat = False; s.generator = False
         s.deps = ''; s.depfile = ''; s.hidden = []
         s.pool = ''; s.ver = 0; s.rsp = None; s.rspver = 0
-        s.dyndep = None; s.console = False
+        s.dyndep = None; s.console = False; s.dd_at_rule = False
     @property
     def out0(s): return s.outs[0]
     def cmd(s):
@@ -86,6 +86,7 @@ class Graph:
             if e.deps: L.append('  deps = ' + e.deps)
             if e.depfile: L.append('  depfile = ' + e.depfile)
             if e.rsp: L += ['  rspfile = ' + e.rsp, '  rspfile_content = ' + e.rspcontent()]
+            if e.dyndep and e.dd_at_rule and not e.pool: L.append('  dyndep = ' + e.dyndep)
         for e in s.edges:
             outs = ' '.join(e.outs[:len(e.outs) - e.n_imp_out])
             if e.n_imp_out: outs += ' | ' + ' '.join(e.outs[len(e.outs) - e.n_imp_out:])
@@ -96,7 +97,7 @@ class Graph:
             if e.vals: l += ' |@ ' + ' '.join(e.vals)
             L.append(l)
             if e.pool: L.append('  pool = ' + e.pool)
-            if e.dyndep: L.append('  dyndep = ' + e.dyndep)
+            if e.dyndep and not (e.dd_at_rule and not e.pool): L.append('  dyndep = ' + e.dyndep)
         if s.defaults: L.append('default ' + ' '.join(s.defaults))
         return '\n'.join(L) + '\n'
 
@@ -241,7 +242,7 @@ def add_dyndep(rnd, g, produced=None):
         ii = [x for x in rnd.sample(earlier, min(len(earlier), rnd.randrange(0, 3))) if x not in e.manifest_ins() and x != dd]
         io = ['ddo%d_%d' % (k, e.idx)] if rnd.random() < 0.4 else []
         info[e.out0] = (io, ii, rnd.random() < 0.3)
-        e.dyndep = dd
+        e.dyndep = dd; e.dd_at_rule = rnd.random() < 0.3
         if rnd.random() < 0.5: e.oo.append(dd)
         else: e.imp.append(dd)
         e.hidden = e.hidden + [x for x in ii if x not in e.hidden]
